@@ -16,8 +16,29 @@ def install_value_stubs(ex):
     def type_error_single(ex, st, callee, A):
         v = A[1]
         tgt = ex.read(st, v.fid, v.place) if isinstance(v, Ref) else v
-        return Agg('struct', 'EvaluationError', None, [Agg('struct', 'TypeError', None, [A[0], tgt], ('expected', 'actual'))], ('type_error',))
+        return mk_type_error(A[0], tgt)
     ex.stub(r'EvaluationError::type_error_single$', type_error_single, 'EvaluationError::type_error_single (opaque constructor)')
+
+    def type_error_other(ex, st, callee, A):
+        # type_error(expected: NonEmpty<Type>, actual), type_error_with_advice(expected, actual, advice), type_error_with_advice_single(..)
+        v = A[1]
+        tgt = ex.read(st, v.fid, v.place) if isinstance(v, Ref) else v
+        return mk_type_error(A[0], tgt)
+    ex.stub(r'EvaluationError::type_error(_with_advice|_with_advice_single)?$', type_error_other, 'EvaluationError::type_error* (opaque constructors)')
+
+
+def mk_type_error(expected, actual_value):
+    """EvaluationError::TypeError(TypeError { expected, actual, advice, source_loc }); `actual` keeps the offending VALUE (a marker
+    for the obligations: the real field holds only its type)"""
+    return Agg('variant', 'evaluator::err::EvaluationError', 'TypeError',
+               [Agg('struct', 'evaluator::err::evaluation_errors::TypeError', None, [expected, actual_value, none(), none()], ('expected', 'actual', 'advice', 'source_loc'))])
+
+
+def as_type_error(e):
+    """(expected, offending value) if `e` is a type error built by the stubs above"""
+    if isinstance(e, Agg) and e.variant == 'TypeError' and e.fields and isinstance(e.fields[0], Agg) and e.fields[0].fnames and e.fields[0].fnames[:2] == ('expected', 'actual'):
+        return e.fields[0].fields[0], e.fields[0].fields[1]
+    return None
 
 
 def expected_type_name(v):
@@ -47,13 +68,13 @@ def decode_result(sv_by_id):
                 pass
             raise NotEncoded(f'Ok payload {p!r}')
         # Err
-        if isinstance(p, Agg) and p.fnames == ('type_error',):
-            te = p.fields[0]
-            actual = te.fields[1]
+        te = as_type_error(p)
+        if te is not None:
+            actual = te[1]
             sv = sv_by_id.get(getattr(actual, 'id', None))
             if sv is None:
                 raise NotEncoded(f'type error about an unknown value {actual!r}')
-            return 'TypeError', [expected_type_name(te.fields[0]), sv.code]
+            return 'TypeError', [expected_type_name(te[0]), sv.code]
         if isinstance(p, Agg) and p.fnames and p.fnames[0].startswith('from:IntegerOverflowError'):
             inner = p.fields[0]
             return 'Overflow', [('err', inner)]
@@ -196,7 +217,180 @@ def k_unary_app(ctx):
     return K
 
 
-KERNELS = [k_binary_arith, k_unary_app]
+def k_binary_relation(ctx):
+    P = ctx.prog('core')
+    f = P.method('evaluator.rs', 'binary_relation', nargs=4)
+    BOP = {}
+    state = {}
+
+    def make(ex):
+        install_value_stubs(ex)
+        a, b = SymValue(ex, 'arg1'), SymValue(ex, 'arg2')
+        op = Opaque('ast::ops::BinaryOp', 'op')
+        BOP.update(ex.variants_of('ast::ops::BinaryOp'))
+        d = ex.disc_term(op)
+        B = {n: z3.Bool(n) for n in ('a_ovl', 'b_ovl', 'same_type', 'ext_lt', 'ext_le', 'values_equal')}
+        ext_of = {}
+        for sv, nm in ((a, 'a'), (b, 'b')):
+            arc = ex.opaque_field(sv.vk, 'ExtensionValue', 0, 'Arc<ast::extension::RepresentableExtensionValue>')
+            ext_of[arc.id] = nm
+            ext_of[('inner', nm)] = arc
+        state.update(a=a, b=b, op=op, by_id={a.v.id: a, b.v.id: b})
+
+        def which(ex, st, v):
+            n = 0
+            while isinstance(v, Ref) and n < 6:
+                v = ex.read(st, v.fid, v.place)
+                n += 1
+            # the Arc or the value inside it
+            if getattr(v, 'id', None) in ext_of:
+                return ext_of[v.id]
+            for nm in ('a', 'b'):
+                arc = ext_of[('inner', nm)]
+                if ('deref', arc.id) in ex.memo and st.frames[0].get(ex.memo[('deref', arc.id)]) is v:
+                    return nm
+            raise NotEncoded(f'unknown extension value {v!r}')
+        ex.stub(r'RepresentableExtensionValue::supports_operator_overloading$', lambda ex, st, c, A: BoolV(B[which(ex, st, A[0]) + '_ovl']), 'ExtensionValue::supports_operator_overloading: one free boolean per operand')
+        ex.stub(r'RepresentableExtensionValue::typename$', lambda ex, st, c, A: Agg('struct', 'Name', None, [StrLit(which(ex, st, A[0]))], ('of',)), 'ExtensionValue::typename (name of that operand\'s type)')
+        ex.stub(r'<.*Name as PartialEq>::(eq|ne)$', lambda ex, st, c, A: BoolV(B['same_type'] if c.endswith('eq') else z3.Not(B['same_type'])), 'equality of the two extension type names: free boolean')
+        ex.stub(r'<&*Arc<.*RepresentableExtensionValue> as PartialOrd>::(lt|le)$', lambda ex, st, c, A: BoolV(B['ext_lt'] if c.endswith('lt') else B['ext_le']), 'ordering of two extension values of one type: uninterpreted (lt implies le)')
+        ex.stub(r'<.*Value as PartialEq>::eq$', lambda ex, st, c, A: BoolV(B['values_equal']), 'structural equality of the two Values: free boolean (derive-generated, not encoded)')
+        ex.stub(r'valid_comparison_op_types$', lambda ex, st, c, A: Opaque('Vec<Type>', 'valid comparison types'), 'valid_comparison_op_types (opaque)')
+        ex.stub(r'(^|::)fmt::format$|Itertools>::join$|Itertools>::sorted$|as IntoIterator>::into_iter$|must_use::<', lambda ex, st, c, A: Opaque('String', 'advice text'), 'advice message formatting (opaque)')
+        ex.invariants.append(z3.Implies(B['ext_lt'], B['ext_le']))
+        ins = {'op': d, **a.ins('a'), **b.ins('b'), **B}
+        pre = [z3.Or(d == BOP['Eq'], d == BOP['Less'], d == BOP['LessEq'])]
+        return ins, [op, Ref(0, ('local', 'A')), Ref(0, ('local', 'B')), Ref(0, ('local', 'X'))], pre
+
+    def setup(ex):
+        ex.initial_heap = None
+
+    def make2(ex):
+        r = make(ex)
+        ex.initial_heap = {'A': state['a'].v, 'B': state['b'].v, 'X': Opaque("Extensions<'_>", 'extensions')}
+        return r
+
+    def decode(ex, o):
+        v = o.val
+        p = v.fields[0]
+        if v.variant == 'Ok':
+            lit = p.fields[0].fields[0]
+            if lit.variant == 'Bool':
+                return 'OkBool', [lit.fields[0].t]
+            raise NotEncoded(f'result {p!r}')
+        te = as_type_error(p)
+        if te is None:
+            raise NotEncoded(f'error {p!r}')
+        exp = te[0]
+        if isinstance(exp, Agg) and exp.variant == 'Long':
+            e = 'long'
+        elif isinstance(exp, Agg) and exp.variant == 'Extension':
+            nm = exp.fields[0]
+            e = 'ext:' + (nm.fields[0].s if isinstance(nm, Agg) and nm.name == 'Name' else '?')
+        else:
+            e = 'advice'
+        sv = state['by_id'].get(getattr(te[1], 'id', None))
+        if sv is None:
+            raise NotEncoded('type error about an unknown value')
+        return 'TypeError', [e, 'a' if sv is state['a'] else 'b']
+
+    def spec(ins, tag, vals):
+        op = ins['op']
+        ak, bk = ins['a_kind'], ins['b_kind']
+        a_long, b_long, a_ext, b_ext = ak == 1, bk == 1, ak == 6, bk == 6
+        is_eq, is_lt = op == BOP['Eq'], op == BOP['Less']
+        both_ext = And(a_ext, b_ext, ins['a_ovl'], ins['b_ovl'], ins['same_type'])
+        if tag == 'OkBool':
+            return Or(And(is_eq, vals[0] == ins['values_equal']),
+                      And(Not(is_eq), a_long, b_long, vals[0] == If(is_lt, ins['a_n'] < ins['b_n'], ins['a_n'] <= ins['b_n'])),
+                      And(Not(is_eq), both_ext, vals[0] == If(is_lt, ins['ext_lt'], ins['ext_le'])))
+        if tag == 'TypeError':
+            e, who = vals
+            ok_cmp = Or(And(a_long, b_long), both_ext)
+            c1 = And(a_long, Not(b_long))                                  # long vs non-long: names the non-long side
+            c2 = And(Not(a_long), b_long)
+            c3 = And(Not(a_long), Not(b_long), a_ext, ins['a_ovl'])        # comparable extension value on the left: right operand is wrong
+            c4 = And(Not(a_long), Not(b_long), Not(And(a_ext, ins['a_ovl'])), b_ext, ins['b_ovl'])
+            c5 = And(Not(a_long), Not(b_long), Not(And(a_ext, ins['a_ovl'])), Not(And(b_ext, ins['b_ovl'])))
+            return And(Not(is_eq), Not(ok_cmp),
+                       Or(And(c1, e == 'long', who == 'b'), And(c2, e == 'long', who == 'a'), And(c3, e == 'ext:a', who == 'b'),
+                          And(c4, e == 'ext:b', who == 'a'), And(c5, e == 'advice', who == 'a')))
+        return False
+
+    def cedar_operand(c, p, other_dt=None):
+        k = c[f'{p}_kind']
+        if k != 6:
+            return cedar_value(k, c[f'{p}_b'], c[f'{p}_n'])
+        if not c[f'{p}_ovl']:
+            return 'ip("1.2.3.4")'
+        return None
+
+    def native(nat, c):
+        opn = {BOP['Eq']: '==', BOP['Less']: '<', BOP['LessEq']: '<='}[c['op']]
+        A, Bv = cedar_operand(c, 'a'), cedar_operand(c, 'b')
+        a_dt = c['a_kind'] == 6 and c['a_ovl']
+        b_dt = c['b_kind'] == 6 and c['b_ovl']
+        if a_dt and b_dt:
+            if c['same_type']:
+                rel = 'lt' if c['ext_lt'] else ('eq' if c['ext_le'] else 'gt')
+                A = 'datetime("2024-01-02")'
+                Bv = {'lt': 'datetime("2024-01-03")', 'eq': 'datetime("2024-01-02")', 'gt': 'datetime("2024-01-01")'}[rel]
+            else:
+                A, Bv = 'datetime("2024-01-02")', 'duration("1h")'
+        else:
+            if a_dt:
+                A = 'datetime("2024-01-02")'
+            if b_dt:
+                Bv = 'duration("1h")'
+        if opn == '==':
+            # the free boolean `values_equal` must be realisable by the chosen operands
+            truly = (A == Bv)
+            if truly != c['values_equal']:
+                return None
+        a = nat.ask({'op': 'eval', 'expr': f'{A} {opn} {Bv}'})
+        tag, vals = classify_eval(a)
+        if tag == 'TypeError':
+            exp, got = vals
+            e = 'long' if exp == 'long' else ('advice' if exp.startswith('one of') else 'ext')
+            # which operand is named: compare the reported kind with the operands' kinds
+            ka, kb = c['a_kind'], c['b_kind']
+            if ka == kb:
+                return None                      # cannot tell the operands apart from the message
+            who = 'a' if got == ka else 'b'
+            if e == 'ext':
+                e = 'ext:' + ('b' if who == 'a' else 'a')
+            return 'TypeError', [e, who]
+        return tag, vals
+
+    def gen(rand):
+        c = {'op': rand.choice([BOP['Eq'], BOP['Less'], BOP['LessEq']]), **gen_value(rand, 'a', BV), **gen_value(rand, 'b', BV)}
+        if rand.random() < 0.4:
+            c['a_kind'] = 6
+        if rand.random() < 0.4:
+            c['b_kind'] = 6
+        for n in ('a_ovl', 'b_ovl', 'same_type', 'ext_le'):
+            c[n] = rand.random() < 0.6
+        c['ext_lt'] = c['ext_le'] and rand.random() < 0.5
+        c['values_equal'] = rand.random() < 0.5
+        return c
+    inputs = [('op', 'isize')] + SymValue.input_decl('a') + SymValue.input_decl('b') + [(n, 'bool') for n in ('a_ovl', 'b_ovl', 'same_type', 'ext_lt', 'ext_le', 'values_equal')]
+    K = Kernel('evaluator::binary_relation', f, inputs, None, decode, spec, native=native, make=make2, gen=gen, expect_tags=('OkBool', 'TypeError'))
+    base = {'a_b': False, 'b_b': False, 'a_ovl': True, 'b_ovl': True, 'same_type': True, 'ext_lt': False, 'ext_le': True, 'values_equal': False}
+    K.samples_fn = lambda: [dict(base, op=BOP[o], a_kind=1, a_n=x, b_kind=1, b_n=y) for o in ('Less', 'LessEq') for x, y in [(I64_MIN, I64_MAX), (I64_MAX, I64_MIN), (5, 5), (-1, 0), (0, -1), (I64_MIN, I64_MIN)]] + \
+                           [dict(base, op=BOP['Less'], a_kind=6, a_n=0, b_kind=6, b_n=0, ext_lt=lt, ext_le=le, same_type=st_) for lt, le, st_ in [(True, True, True), (False, True, True), (False, False, True), (False, True, False)]]
+    return K
+
+
+class StrLit:
+    """a python-level tag carried inside symbolic values (never reaches the solver)"""
+    def __init__(s, t):
+        s.s = t
+
+    def __repr__(s):
+        return f'tag:{s.s}'
+
+
+KERNELS = [k_binary_arith, k_unary_app, k_binary_relation]
 
 
 def families(ctx):
